@@ -53,6 +53,21 @@ func NewProvider(fs filesystem.Filespace, helpersPath, layoutPath, viewPath, ext
 
 // Base return base template (with loaded helpers)
 func (provider *Provider) Base() (*template.Template, error) {
+	return provider.handOut(provider.cachedBase())
+}
+
+// handOut prepares a base or layout template for the caller. html/template refuses to
+// Clone a template after it was executed, and layouts and views are built by cloning the
+// cached base and layout templates, so the cached ones never leave the provider: the
+// caller gets a copy that is safe to execute.
+func (provider *Provider) handOut(tmpl *template.Template, err error) (*template.Template, error) {
+	if err != nil || !provider.isCached {
+		return tmpl, err
+	}
+	return tmpl.Clone()
+}
+
+func (provider *Provider) cachedBase() (*template.Template, error) {
 	provider.baseMutex.RLock()
 	baseTemplate := provider.baseTemplate
 	provider.baseMutex.RUnlock()
@@ -90,6 +105,10 @@ func (provider *Provider) base() (baseTemplate *template.Template, err error) {
 
 // Layout return template for named layout (with loaded helpers and layout definitions)
 func (provider *Provider) Layout(name string) (*template.Template, error) {
+	return provider.handOut(provider.cachedLayout(name))
+}
+
+func (provider *Provider) cachedLayout(name string) (*template.Template, error) {
 	if name == "" {
 		name = goathtml.DefaultLayout
 	}
@@ -112,7 +131,7 @@ func (provider *Provider) layout(name string) (layoutTemplate *template.Template
 	if layoutTemplate, ok = provider.layouts[name]; ok {
 		return layoutTemplate, nil
 	}
-	if layoutTemplate, err = provider.Base(); err != nil {
+	if layoutTemplate, err = provider.cachedBase(); err != nil {
 		return nil, err
 	}
 	if layoutTemplate, err = layoutTemplate.Clone(); err != nil {
@@ -172,7 +191,7 @@ func (provider *Provider) view(layoutName, viewName string, key viewKey) (viewTe
 		return viewTemplate, nil
 	}
 	// create a new view
-	if layoutTemplate, err = provider.Layout(layoutName); err != nil {
+	if layoutTemplate, err = provider.cachedLayout(layoutName); err != nil {
 		return nil, err
 	}
 	if viewTemplate, err = layoutTemplate.Clone(); err != nil {
